@@ -18,7 +18,7 @@ from ..seqmc.values import canon
 
 P = "C13"
 DEFAULTS = ["0", "False", "''", "None", "1", "'x'"]
-VALUES = ["0", "1", "2", "''", "'x'", "None", "1.5", "-1", "0.0", "1.0", "True"]
+VALUES = ["0", "1", "2", "''", "'x'", "None", "1.5", "-1", "0.0", "1.0", "True", "(1, 2)", "[1, 3]", "{'a': 1}", "()", "(1, (2, -3))"]
 SMALLV = ["0", "1", "''", "None"]
 
 
